@@ -182,6 +182,48 @@ def run(ctx):
         for how in ITERABLES:
             recs.append(observe(f"z{k}-{how}", b, entry=how))
             ctx.evaluations += 1
+    # MC + REPLAY: SongSection.tla - the decoding as the code runs it (field after field, each scanning all lines), over every
+    # body of <= 3 (thorough: 4) lines naming a required integer, an optional integer, the enumeration and a string field with
+    # a zero, a non-zero or a refused value, the same field twice included.  The two wrong designs must fail in the model;
+    # every terminal state is replayed through Metadata.from_chart_lines (as each iterable kind in turn): the records are judged
+    # by Props!C10V like all others, the model's own prediction (first line wins ...) is compared as drift.
+    from ctx import MachineryError
+    for cfg, inv in (("MC_SongSection_lastwins", "FirstWins"), ("MC_SongSection_truthy", "MissingIffAbsent")):
+        bad = ctx.mc("MC_SongSection", cfg, allow_violation=True, deadlock=False)
+        if not bad.violated or inv not in str(bad.violated):
+            raise MachineryError(f"SongSection.tla: {cfg} does not violate {inv} (vacuous model): {bad.violated}")
+        ctx.extra[f"model_mutant_{cfg}_violates"] = str(bad.violated)
+    res_ss = ctx.mc("MC_SongSection", ctx.pick("MC_SongSection_quick", "MC_SongSection"), deadlock=False)
+    from props import _notes
+    beh = _notes._behaviours(res_ss)
+    ctx.extra["songsection_behaviours"] = len(beh)
+    if len(beh) > ctx.pick(2400, 31000):
+        beh = r.sample(beh, ctx.pick(2400, 31000))
+        ctx.count("behaviours_sampled_not_all")
+    conc = {"resolution": {"0": "Resolution = 0", "7": "Resolution = 7", "bad": "Resolution = x"},
+            "offset": {"0": "Offset = 0", "7": "Offset = 7", "bad": "Offset = x"},
+            "player2": {"0": "Player2 = bass", "7": "Player2 = rhythm", "bad": "Player2 = drums"},
+            "name": {"0": 'Name = "0"', "7": 'Name = "7"', "bad": "Name = "},
+            "junk": {"0": "garbage"}}
+    want_obs = {"resolution": {"0": ["int", [0]], "7": ["int", [7]]}, "offset": {"0": ["int", [0]], "7": ["int", [7]]},
+                "player2": {"0": ["p2", "BASS"], "7": ["p2", "RHYTHM"]}, "name": {"0": ["str", cps("0")], "7": ["str", cps("7")]}}
+    defaults = observe("ss-defaults", ["Resolution = 7"], entry="list")["obs"]
+    for k, b in enumerate(beh):
+        body = [conc[ln["f"]][ln["v"]] for ln in b["body"]]
+        rec = observe(f"ss{k}", body, entry=ITERABLES[k % len(ITERABLES)])
+        recs.append(rec)
+        ctx.evaluations += 1
+        ctx.distinct(["ss", body])
+        ok = (rec["raised"] or "ok") == b["outcome"]
+        if ok and b["outcome"] == "ok":
+            for f, v in b["out"].items():
+                exp = defaults["f_" + f] if v == "default" else want_obs[f][v]
+                ok = ok and rec["obs"]["f_" + f] == exp
+        if not ok:
+            ctx.drift += 1
+            ex = ctx.extra.setdefault("songsection_drift_examples", [])
+            if len(ex) < 5:
+                ex.append({"body": body, "model": b, "raised": rec["raised"], "obs": {kk: vv for kk, vv in rec["obs"].items() if vv != ["none"]}})
     for k, b in enumerate(bodies):
         recs.append(observe(f"s{k}", b))
         ctx.evaluations += 1
